@@ -244,6 +244,26 @@ func (c *Conn) Deliver() bool {
 	return true
 }
 
+// DeliverCut processes the next held request like Deliver, lets only the first k bytes of its
+// reply through, and severs the connection: a connection lost inside a reply.
+func (c *Conn) DeliverCut(k int) bool {
+	c.mu.Lock()
+	defer c.mu.Unlock()
+	if len(c.pending) == 0 || c.PeerClosed {
+		return false
+	}
+	f := c.pending[0]
+	before := len(c.out)
+	c.process(f)
+	if before+k < len(c.out) {
+		c.out = c.out[:before+k]
+	}
+	c.PeerClosed = true
+	c.pending = nil
+	c.cond.Broadcast()
+	return true
+}
+
 // IsPeerClosed reports whether the backend side has closed the connection.
 func (c *Conn) IsPeerClosed() bool { c.mu.Lock(); defer c.mu.Unlock(); return c.PeerClosed }
 
